@@ -24,8 +24,8 @@
     No proofs in this file. *)
 From Coq Require Import List Bool Arith ZArith String Ascii.
 Import ListNotations.
-Open Scope string_scope.
-Open Scope Z_scope.
+Local Open Scope string_scope.
+Local Open Scope Z_scope.
 
 (** strings.Split(s, "/") *)
 Fixpoint split_slash (s : string) : list string :=
